@@ -50,7 +50,7 @@ package wire
 //@   ensures [nil-internal-fatal] {C17} (result == nil && err == nil) ==> (#E_S == "FATAL" && #E_C == "XX000" && #E_M == "unknown error, an internal process attempted to throw an error" && #E_mask == 7)
 //@   ensures [field-severity] {C17} (result == nil && err != nil) ==> #E_S == (specSeverity(err) == "" ? "ERROR" : specSeverity(err))
 //@   ensures [field-code] {C17} (result == nil && err != nil) ==> #E_C == specCode(err)
-//@   ensures [field-message] {C17} (result == nil && err != nil) ==> #E_M == errtext(err)
+//@   ensures [field-message] {C17} (result == nil && err != nil) ==> #E_M == msgOf(err)
 //@   ensures [field-hint] {C17} (result == nil && err != nil) ==> (hasbit(#E_mask, 16) <==> specHint(err) != "") && (specHint(err) != "" ==> #E_H == specHint(err))
 //@   ensures [field-detail] {C17} (result == nil && err != nil) ==> (hasbit(#E_mask, 8) <==> specDetail(err) != "") && (specDetail(err) != "" ==> #E_D == specDetail(err))
 //@   ensures [field-source] {C17} (result == nil && err != nil) ==> ((hasbit(#E_mask, 32) <==> specHasSource(err)) && (hasbit(#E_mask, 64) <==> specHasSource(err)) && (hasbit(#E_mask, 128) <==> specHasSource(err)) && (specHasSource(err) ==> (#E_F == specSrcFile(err) && #E_L == itoa(specSrcLine(err)) && #E_R == specSrcFunc(err))))
@@ -285,3 +285,42 @@ package wire
 //@     invariant [own-array] arr(parameters) > old(#alloc)
 //@     invariant [matches] each(matches, m, len(m) == 2 && (m[1] == "" || ufb("digits", m[1])))
 //@     decreases len(matches) - $index
+
+// ---- COPY-in ---------------------------------------------------------------------------
+
+//@ func NewCopyReader
+//@   props C13 C14 C04
+//@   requires reader != nil && reader.MaxMessageSize >= 0
+//@   ensures result != nil && fresh(result) && result.Reader == reader && result.writer == writer && result.columns == columns
+//@   ensures [alloc-bound] #maxalloc <= max(old(#maxalloc), reader.MaxMessageSize)
+//@   modifies #maxalloc, #nalloc
+
+//@ func (*CopyReader).Columns
+//@   props C13 C04
+//@   requires r != nil
+//@   ensures result == r.columns
+//@   modifies nothing
+
+//@ func (*CopyReader).Read
+//@   props C13 C05 C03 C18 C04
+//@   ghostparam wa wi
+//@   requires r != nil && ReaderOK(r.Reader) && WriterReady(r.writer)
+//@   ensures [ok] ReaderOK(r.Reader)
+//@   ensures [data] result == nil ==> (#nIn > old(#nIn) && #lastIn == 'd')
+//@   ensures [done-eof] (#nIn > old(#nIn) && #lastIn == 'c') ==> result == io.EOF
+//@   ensures [fail-error] (#nIn > old(#nIn) && #lastIn != 'd' && #lastIn != 'c' && #lastIn != 'H' && #lastIn != 'S') ==> (result != nil && result != io.EOF)
+//@   ensures [error-text] (#nIn > old(#nIn) && #lastIn != 'd' && #lastIn != 'c' && #lastIn != 'H' && #lastIn != 'S') ==> ErrTextOK(result)
+//@   ensures [silent] {C13 C05} OutSame()
+//@   ensures [err-kind] (result != nil && #nIn > old(#nIn) && #lastIn != 'd' && #lastIn != 'c' && #lastIn != 'H' && #lastIn != 'S') ==> !isExceeded(result)
+//@   ensures [no-overwrite] {C18} (wa <= old(#alloc) && Exposed(old(r.Reader.Msg), wa, wi)) ==> mem(wa, wi) == old(mem(wa, wi))
+//@   ensures [stays-exposed] {C18} (wa <= old(#alloc) && Exposed(old(r.Reader.Msg), wa, wi)) ==> Exposed(r.Reader.Msg, wa, wi)
+//@   ensures [alloc-bound] {C04} #maxalloc <= max(old(#maxalloc), max(r.Reader.MaxMessageSize, 4096))
+//@   modifies r.Reader.Buffer.#pos, arrayof(r.Reader.header), r.Reader.Msg, memtail(r.Reader.Msg), #maxalloc, #nalloc, #nIn, #lastIn
+//@   loop 0
+//@     invariant [ok] ReaderOK(r.Reader) && WriterReady(r.writer)
+//@     invariant [skipped] #nIn >= old(#nIn) && (#nIn > old(#nIn) ==> (#lastIn == 'H' || #lastIn == 'S'))
+//@     invariant [silent] OutSame()
+//@     invariant [window] Advanced(r.Reader.Msg, old(r.Reader.Msg)) || arr(r.Reader.Msg) > old(#alloc)
+//@     invariant [no-overwrite] {C18} (wa <= old(#alloc) && Exposed(old(r.Reader.Msg), wa, wi)) ==> mem(wa, wi) == old(mem(wa, wi))
+//@     invariant [stays-exposed] {C18} (wa <= old(#alloc) && Exposed(old(r.Reader.Msg), wa, wi)) ==> Exposed(r.Reader.Msg, wa, wi)
+//@     invariant [alloc-bound] #maxalloc <= max(old(#maxalloc), max(r.Reader.MaxMessageSize, 4096))
